@@ -637,10 +637,15 @@ func RunWorker[P any](t *testing.T, cfg Config, eng *Engine[P]) {
 			}
 		}
 		if fv == nil {
-			st.Note = "minimised plan no longer fails (nondeterminism?)"
-			write()
-			fmt.Fprintf(os.Stderr, "SIM-FATAL %s\n", st.Note)
-			os.Exit(ExitInternal)
+			// The minimised plan does not fail any more when it is executed again:
+			// the library behaves nondeterministically by itself (sync.Pool, the
+			// garbage collector, map iteration). Report the plan as generated with
+			// the violation as it was observed; the driver confirms it in fresh
+			// processes (several attempts, then the whole prefix of runs).
+			st.Note = "minimised plan no longer fails when re-executed; reporting the plan as generated"
+			min, tried = plan, 0
+			final, fv = res, hit
+			fails, execs = 1, 40
 		}
 		pb, _ := json.Marshal(min)
 		rp := Replay{Property: eng.Property, Engine: eng.Name, VerifSeed: cfg.Seed, Worker: cfg.Worker, Run: i, PlanSeed: pseed,
